@@ -395,6 +395,10 @@ func randomValue(r *lib.Rng, depth int) *V {
 // canonText is a text that is the same for two descriptions which denote equal values in the
 // harness' own (independent) understanding: used only to keep generated hash keys distinct.
 func canonText(v *V) string {
+	if v.R != "" && !v.isRawFromArray() {
+		// the route does not change the value
+		v = v.withRoute("")
+	}
 	switch v.K {
 	case "Float":
 		f := math.Float64frombits(v.F)
@@ -508,6 +512,69 @@ func (p *pool) add(d *V, family string) *item {
 	return it
 }
 
+// routeFamily: the values of the corpus made by other routes.  Timestamp, Binary, Regexp, HashEntry: every
+// route; the first arrays and the first hashes with two or more entries: every route; the other containers:
+// one or a few routes in rotation.
+func routeFamily(base []*V, thorough bool) []*V {
+	var r []*V
+	nArr, nHash2, nHash1 := 0, 0, 0
+	for _, d := range base {
+		rs := routesOf(d.K)
+		if len(rs) == 0 {
+			continue
+		}
+		var pick []string
+		switch d.K {
+		case "Arr":
+			switch {
+			case nArr < 6 || thorough:
+				pick = rs
+			case nArr%3 == 0:
+				pick = []string{rs[(nArr/3)%len(rs)]}
+			}
+			nArr++
+		case "Hash":
+			if len(d.Vs) >= 4 {
+				switch {
+				case nHash2 < 5 || thorough:
+					pick = rs
+				default:
+					for j := 0; j < 4; j++ {
+						pick = append(pick, rs[(nHash2*4+j)%len(rs)])
+					}
+				}
+				nHash2++
+			} else {
+				pick = []string{rs[nHash1%len(rs)]}
+				if thorough {
+					pick = rs
+				}
+				nHash1++
+			}
+		default:
+			pick = rs
+		}
+		for _, route := range pick {
+			r = append(r, d.withRoute(route))
+		}
+	}
+	return r
+}
+
+// addRouted adds a description with routes; a route that cannot make the value is counted, not reported
+// (constructing is the subject of other properties)
+func (p *pool) addRouted(d *V, family string) *item {
+	if !d.wellFormed() {
+		p.res.Count("skipped.route-not-applicable")
+		return nil
+	}
+	it := p.add(d, family)
+	if it == nil && !p.seen[d.String()] {
+		p.res.Count("skipped.route-rejected." + d.K + "@" + d.R)
+	}
+	return it
+}
+
 func buildPool(c px.Context, cfg *lib.Config, res *lib.Result, rng *lib.Rng) *pool {
 	p := &pool{seen: map[string]bool{}, c: c, res: res}
 	for _, d := range scalarFamily() {
@@ -525,13 +592,24 @@ func buildPool(c px.Context, cfg *lib.Config, res *lib.Result, rng *lib.Rng) *po
 	for _, d := range outsideFamily() {
 		p.add(d, "outside-model")
 	}
+	// the same values made by other construction routes (routes.go)
+	for _, d := range routeFamily(append(scalarFamily(), containerFamily()...), cfg.Thorough()) {
+		p.addRouted(d, "route")
+	}
 	nRandom, nRandomT := 250, 150
 	if cfg.Thorough() {
 		nRandom, nRandomT = 1200, 600
 	}
 	for i := 0; i < nRandom; i++ {
 		r := rng.Fork()
-		p.add(randomValue(r, 1+r.Intn(3)), "random")
+		d := randomValue(r, 1+r.Intn(3))
+		p.add(d, "random")
+		// every second container also with random routes at its nodes
+		if len(d.Vs) > 0 && i%2 == 0 {
+			if rd := routed(r, d); rd.hasRoute() {
+				p.addRouted(rd, "random-route")
+			}
+		}
 	}
 	for i := 0; i < nRandomT; i++ {
 		r := rng.Fork()
